@@ -224,6 +224,7 @@ func TestC13(t *testing.T) {
 	rapid.Check(t, func(t *rapid.T) {
 		c := &c13{t: t, classes: map[string]bool{}}
 		c.v = NewVestWorld([]VType{{Name: "vt0", Free18: "0"}})
+		c.v.Tx = DrawTxMode(t)
 		app := c.v.App
 		// initial valid configurations
 		mcfg := GenMinterCfg(t, 4, 30, 30)
@@ -494,7 +495,7 @@ func TestC13(t *testing.T) {
 		if c.accepted > 0 {
 			c.classes["some_update_accepted"] = true
 		}
-		st.Case(nt, map[string]interface{}{"history": c.hist}, classList(c.classes)...)
+		st.Case(nt, map[string]interface{}{"history": c.hist}, append(classList(c.classes), c.v.TxClasses()...)...)
 	})
 }
 
